@@ -131,8 +131,8 @@ Print Assumptions C18_positional_only_bound_by_name.
 (* Instance obligation, re-checked whenever the source changes: the program regenerated from
    Functor._parse_call_time_overrides (Gen/BindingCallTime.v, interpreted by Model/BindingLang.v) hands
    the wrapped function exactly the arguments of the hand model [functor_call_args] - to which
-   C18_call_equiv applies - on every input of a finite grid (48 signature shapes x 17 construction
-   calls x flags x later bindings x 15 calls x call-time flags, before and after a JSON round trip),
+   C18_call_equiv applies - on every input of a finite grid (48 signature shapes x 8 construction
+   calls x flags x later bindings x 8 calls x call-time flags, before and after a JSON round trip),
    with run-time type checking on and off. *)
 Theorem C18_generated_call_time_code_agrees : grid_agrees = true.
 Proof. exact generated_code_agrees_on_grid. Qed.
